@@ -81,7 +81,7 @@ CA_STATES = ('not_started', 'wait_veto', 'normal_veto', 'normal_immediate', 'los
              'moved_twice', 'cannot_claim', 'bypassed')
 
 
-def make_ca(w, node, state, addr, ident, aac=None):
+def make_ca(w, node, state, addr, ident, aac=None, ex=None):
     """drive a real ControllerApplication on `node` through the named claim history by the real procedure.
     Returns (ca, address the CA holds according to the HISTORY (not according to the CA's own state) or None).
     Contending claims are injected from outside with a lower NAME."""
@@ -108,6 +108,12 @@ def make_ca(w, node, state, addr, ident, aac=None):
     if state in ('normal_veto', 'normal_immediate'):
         return ca, addr
     low = j1939.Name(arbitrary_address_capable=0, identity_number=1).value
+    if ex is not None:
+        # any valid NAME that is numerically lower than ours wins the contest
+        from ..ref import ids as _ids
+        low = ex.fresh_int('contender_name', 0, (1 << 64) - 1)
+        ex.assume(_ids.name_field(low, 'reserved_bit') == 0)
+        ex.assume(low < name.value)
 
     def contend(at):
         cid = (6 << 26) | (0xEE << 16) | (0xFF << 8) | at
